@@ -240,6 +240,7 @@ MASKS = {
     "unset": lambda idx: False,
     "even": lambda idx: sum(idx) % 2 == 0,
     "odd": lambda idx: sum(idx) % 2 == 1,
+    "first": lambda idx: all(i == 0 for i in idx),  # exactly ONE populated cell (a freshly created vector after a single assignment)
 }
 
 
@@ -1186,7 +1187,8 @@ C_GETITEM = Contract(f"{VEC}:Vector.__getitem__", setup=gi_setup, ensures=gi_ens
 # ------------------------------------------------------------------------------------------------
 # value kinds: "arr2" 2-D array with SYMBOLIC column count | "arr1" | "arr3" | "none" (not an array) | "pylist" (nested python list)
 #              a tuple of kinds = python list of such items | "notlist" = a bare array where a list is required |
-#              "vec:<shape>:<mask>" = another Vector (for __setitem__)
+#              "vec:<shape>:<mask>[:<nf>]" = another Vector (for __setitem__) with its OWN field count nf (default: the target's), i.e. the
+#              right-hand side of `v[0:2] = w[2:4]` after w.add_fields(..) / w.remove_fields(..): matching AND non-matching column counts
 
 
 def mk_value(ctx, kind, nf, tag="val"):
@@ -1199,8 +1201,8 @@ def mk_value(ctx, kind, nf, tag="val"):
     if kind == "notlist":
         return cm.fresh_cell(ctx, tag, nf)
     if kind.startswith("vec:"):
-        _, shp, mask = kind.split(":")
-        return mk_vec(ctx, tuple(int(x) for x in shp.split("x")), nf, mask, tag="w")
+        _, shp, mask, *own = kind.split(":")
+        return mk_vec(ctx, tuple(int(x) for x in shp.split("x")), int(own[0]) if own else nf, mask, tag="w")
     cols = ctx.fresh(f"{tag}_cols", "int")
     ctx.assume(cols.t >= 0)
     return cm.fresh_cell(ctx, tag, cols, ndim=int(kind[3]))
@@ -1351,6 +1353,12 @@ SI_CASES = (
        ((2, 3), ("0:2", "1"), ("arr2",)), ((2, 3), ("0:2", "1"), "notlist"), ((2, 3), ("0:2", "1"), ("arr2", "none")), ((2, 3), ("0:2", "1"), ("arr1", "arr2")),
        ((2, 3), ("0:2", "[7]"), ("arr2", "arr2")), ((2, 3), ("0:2", "1"), "vec:2x1:full"), ((2, 3), ("1", "0:2"), "vec:2:full"), ((2, 3), ("0:2", "1"), "vec:2:even"),
        ((2, 3), ("0:2", "1"), "vec:3:full")]
+    # Vector-valued right-hand sides with matching (2) and NON-matching (1, 3) field counts, for 1..3 fixed dims, slice / fancy / partial indices
+    + [((2, 3), ("0:2", "1"), f"vec:2:full:{k}") for k in (1, 3)] + [((2, 3), ("[1,0]", "[0,2]"), f"vec:2x2:full:{k}") for k in (2, 3)]
+    + [((2, 3), ("0:1",), f"vec:3:full:{k}") for k in (2, 3)] + [((2, 3), ("1",), "vec:1x3:full:1")]
+    + [((3,), ("0:2",), f"vec:2:full:{k}") for k in (1, 2, 3)] + [((3,), ("[2,0]",), "vec:2:full:3")]
+    + [((2, 2, 2), ("1", ":", ":"), f"vec:2x2:full:{k}") for k in (1, 2)] + [((2, 2, 2), ("1:",), "vec:1x2x2:full:3"), ((2, 2, 2), (":", "0", "a[1,0]"), "vec:4:full:3")]
+    + [((2, 3), ("0:2", "1"), "vec:3:full:3"), ((2, 3), ("0:2", "1"), "vec:2:even:3"), ((2, 3), ("i", "i"), "vec:1:full:2")]
     + [((2, 3), ("0",), "arr2"), ((2, 3), ("0:1",), ("arr2",)), ((2, 3), ("0:1",), ("arr2",) * 3), ((2, 3), ("[1]", "0"), "arr2")]
     + [((2, 3), ("field",), "flat"), ((2, 1, 2), ("field",), "flat"), ((3,), ("field",), "flat2d"), ((2,), ("nofield",), "flat")]
 )
@@ -1442,6 +1450,12 @@ C_SETITEM = Contract(f"{VEC}:Vector.__setitem__", setup=si_setup, ensures=si_ens
                              KeyError: lambda s: si_errors(s).get("KeyError", False)},
                      inline=[f"{VEC}:_FieldView.__init__"])
 
+
+# The invariant clauses of the mutators that take arrays / lists / Vectors from the caller are proved BEFORE (hence without) the
+# "no exception was due" facts: if a validation is skipped on some path, `post:Inv:every-populated-cell-is-2d-with-one-column-per-field`
+# fails by name there, in addition to `raises:ValueError:whenever`.
+for _c in (C_SET_DATA, C_SETITEM):
+    _c.posts_first = True
 
 # ------------------------------------------------------------------------------------------------
 # add_fields / remove_fields
@@ -1572,7 +1586,7 @@ C_REMOVE_FIELDS = Contract(f"{VEC}:Vector.remove_fields", setup=rf_setup, requir
 # flatten / field views
 # ------------------------------------------------------------------------------------------------
 
-FLAT_VECS = [((1,), "full", 2), ((3,), "even", 2), ((3,), "unset", 1), ((2, 2), "odd", 2), ((2, 3), "full", 1), ((2, 1, 2), "even", 2), ((2, 2, 2), "odd", 1)]
+FLAT_VECS = [((1,), "full", 2), ((3,), "first", 2), ((2, 2), "first", 1), ((2, 1, 2), "first", 2), ((3,), "even", 2), ((3,), "unset", 1), ((2, 2), "odd", 2), ((2, 3), "full", 1), ((2, 1, 2), "even", 2), ((2, 2, 2), "odd", 1)]
 
 
 def populated_in_order(leaves, shape):
@@ -1976,6 +1990,7 @@ def ds_ensures(s):
 C_SET_DATA_PROP = Contract(f"{VEC}:Vector.data.fset", setup=ds_setup, requires=lambda s: inv(s.self), ensures=ds_ensures, snapshot=lambda s: snap_vec(s.self),
                            raises={TypeError: lambda s: ds_errors(s)["TypeError"], ValueError_or_IndexError: lambda s: ds_errors(s)["ShapeError"]},
                            on_raise=raise_unchanged)
+C_SET_DATA_PROP.posts_first = True
 
 CONTRACTS = [C_NESTED, C_VSHAPE, C_VFIELDS, C_VNUM, C_VUNITS, C_VDATA, C_VINFER, C_INIT, C_FROM_SHAPE, C_COPY, C_GET_DATA, C_GETITEM, C_SET_DATA, C_SETITEM,
              C_ADD_FIELDS, C_REMOVE_FIELDS, C_VFLATTEN, C_FV_FLATTEN, C_FV_SETFLAT, C_FV_APPLY] + C_ARITH + [C_FROM_DATA, C_SET_UNITS, C_SET_DATA_PROP, C_FV_GETITEM]
@@ -2341,8 +2356,8 @@ def rt_index_op(inp):
     else:
         vk = inp["value"]
         if isinstance(vk, str) and vk.startswith("vec:"):
-            _, shp, mask = vk.split(":")
-            val, valref = build_pair(tuple(int(x) for x in shp.split("x")), nf, mask, rows=[1, 2, 0])
+            _, shp, mask, *own = vk.split(":")
+            val, valref = build_pair(tuple(int(x) for x in shp.split("x")), int(own[0]) if own else nf, mask, rows=[1, 2, 0])
         elif vk in ("flat", "flat2d"):
             n = inp.get("values_len")
             n = ref.flatten().shape[0] if n is None else int(n)
@@ -2555,10 +2570,22 @@ def rt_fields(inp):
         r1, r2 = both(lambda: v.flatten(), lambda: ref.flatten())
         if r2 is not None and not (isinstance(r1, np.ndarray) and r1.shape == r2.shape and np.array_equal(r1, r2)):
             problems.append(f"flatten: {np.asarray(r1).tolist()} != {r2.tolist()}")
+        elif r2 is not None and shares_cell_memory(r1, v):
+            problems.append("flatten() returned an array that shares memory with a stored cell")
     elif op == "field_flatten":
         r1, r2 = both(lambda: v[name].flatten(), lambda: ref.field_flatten(name))
         if r2 is not None and not (isinstance(r1, np.ndarray) and r1.shape == r2.shape and np.array_equal(r1, r2)):
             problems.append(f"field flatten: {np.asarray(r1).tolist()} != {r2.tolist()}")
+        elif r2 is not None and shares_cell_memory(r1, v):
+            problems.append(f"v[{name!r}].flatten() returned an array that shares memory with a stored cell (a live view, not the concatenation)")
+    elif op == "snapshot_restore":
+        # history: hold the flattened field across a later mutation, then write it back - the data must be restored
+        before = ref.copy()
+        snap = v[name].flatten()
+        v[name] *= 10.0
+        v[name] += 1.0
+        v[name].set_flattened(snap)
+        ref = before
     elif op == "set_flattened":
         total = ref.flatten().shape[0]
         n = total if inp.get("values_len") is None else int(inp["values_len"])
@@ -2655,6 +2682,11 @@ C_FV_GETITEM.rt, C_FV_GETITEM.rt_family = rt_fv_getitem, (lambda: iter(FVGI_INPU
 C_FV_GETITEM.concretize = lambda ev: dict(op="fv_getitem", shape=list(FVGI_CASES[ev("fvgi_case")][0]), idx=list(FVGI_CASES[ev("fvgi_case")][1]), col=ev("fvgi_col", 0)) if ev("fvgi_case") is not None else None
 
 
+def shares_cell_memory(arr, v):
+    return isinstance(arr, np.ndarray) and any(isinstance(c, np.ndarray) and c.size and arr.size and np.shares_memory(arr, c)
+                                               for c in (cell_at(v._data, k) for k in cells_of(tuple(v._shape))))
+
+
 def simple_family(inputs):
     return lambda: iter(inputs)
 
@@ -2735,7 +2767,7 @@ C_VINFER.concretize = conc_index_into(["vi_items"], lambda ev, k: dict(op="from_
 C_ADD_FIELDS.rt, C_ADD_FIELDS.rt_family = rt_fields, simple_family(af_inputs())
 C_REMOVE_FIELDS.rt, C_REMOVE_FIELDS.rt_family = rt_fields, simple_family(rf_inputs())
 C_VFLATTEN.rt, C_VFLATTEN.rt_family = rt_fields, simple_family(flat_inputs("flatten"))
-C_FV_FLATTEN.rt, C_FV_FLATTEN.rt_family = rt_fields, simple_family(flat_inputs("field_flatten"))
+C_FV_FLATTEN.rt, C_FV_FLATTEN.rt_family = rt_fields, simple_family(flat_inputs("field_flatten") + flat_inputs("snapshot_restore"))
 C_FV_SETFLAT.rt, C_FV_SETFLAT.rt_family = rt_fields, simple_family(flat_inputs("set_flattened", extra=(dict(values_len=1), dict(values="vec2"))) + flat_inputs("roundtrip"))
 C_FV_APPLY.rt, C_FV_APPLY.rt_family = rt_fields, simple_family(flat_inputs("apply"))
 for _c in C_ARITH:
@@ -2860,6 +2892,13 @@ def run_history(inp):
                 as_list = ("multi" in klass or "partial" in klass)
                 val = [new_arr() for _ in range(ncell)] if as_list else new_arr()
                 valref = [x.copy() for x in val] if as_list else val.copy()
+                if op == "setitem" and as_list and rng.random() < 0.4:
+                    # the right-hand side is a Vector with its OWN schema (as after w = v.copy(); w.add_fields(..) / w.remove_fields(..); v[..] = w[..]):
+                    # the same, one more or one fewer field than the target; sometimes with an unset cell
+                    nfw = max(1, ref.nf + int(rng.integers(-1, 2)))
+                    val, valref = build_pair((ncell,), nfw, "full" if rng.random() < 0.85 else "even", rows=[int(x) for x in rng.integers(0, 4, size=3)])
+                    trace[-1] += f" = Vector(shape=({ncell},), {nfw} fields; target has {ref.nf})"
+                    klass += "|value=Vector"
                 if op == "set_data":
                     res = run_both(lambda: v.set_data(val, *idx), lambda: ref.set_data(valref, *idx))
                 else:
@@ -2900,6 +2939,14 @@ def run_history(inp):
             (k1, r1), (k2, r2) = run_both(lambda: (v.flatten(), v[name].flatten()), lambda: (ref.flatten(), ref.field_flatten(name)))
             if k1 != k2 or (k1 == "ok" and not (np.array_equal(r1[0], r2[0]) and r1[0].shape == r2[0].shape and np.array_equal(r1[1], r2[1]))):
                 msg = "flatten differs from the row-major concatenation"
+            elif k1 == "ok" and (shares_cell_memory(r1[0], v) or shares_cell_memory(r1[1], v)):
+                msg = "a flattened array shares memory with a stored cell"
+            elif k1 == "ok" and r1[1].size:
+                # hold the flattened field across a mutation, write it back: the data is restored
+                snap = r1[1]
+                v[name] *= 3.0
+                v[name].set_flattened(snap)
+                trace[-1] += f"; v[{name!r}] *= 3; set_flattened(snapshot)"
         elif op == "copy":
             trace.append("copy")
             c = v.copy()
@@ -3047,7 +3094,7 @@ BOUNDED = [
                     "enumerated argument combinations", klass=create_klass),
     Bounded.from_rt("field operations and flatten / set_flattened on concrete vectors", rt_fields,
                     lambda: iter(af_inputs() + rf_inputs() + flat_inputs("flatten") + flat_inputs("field_flatten") + flat_inputs("set_flattened", extra=(dict(values_len=1), dict(values="vec2")))
-                                 + flat_inputs("roundtrip") + flat_inputs("apply") + [x for n in ARITH for x in flat_inputs(n, ARITH_VECS)]),
+                                 + flat_inputs("roundtrip") + flat_inputs("snapshot_restore") + flat_inputs("apply") + [x for n in ARITH for x in flat_inputs(n, ARITH_VECS)]),
                     "7 shapes x cell masks x row patterns (incl. zero rows) x every column", klass=lambda inp, res: inp["op"]),
 ]
 
